@@ -186,6 +186,7 @@ def generate() -> str:
     L.append("theorem element_preserved : table.elementPreserved = true := by decide +kernel")
     L.append("theorem second_cycle_fixed : table.secondCycleFixed = true := by decide +kernel")
     L.append("theorem set_model_agrees : table.setModelAgrees = true := by decide +kernel")
+    L.append("theorem tokens_wellformed : table.tokensOk = true ∧ table.symsOk = true ∧ bonds.tokensOk = true := by decide +kernel")
     L.append("/-- `Element.get(e.symbol) = e` for every element (the xyz reader looks symbols up this way) -/")
     L.append("theorem symbol_roundtrip : table.symbolRoundtrip = true := by decide +kernel")
     if witness is not None:
